@@ -102,21 +102,24 @@ CHECKS = {
              "and per-vBucket checkpoint/high-seqno relation {no document, below, equal, above}, auto-reset earliest/latest, and one fault class "
              "{checkpoint above high seqno, Metadata.Load error, seqno query error, failover-log error on a subset (latest reset), OpenStream "
              "error on a subset, unknown membership type, unknown metadata type, unknown leader-election type, re-open failing 5 times after a "
-             "transient end, several at once} or none (control group). Oracle: fault => the process terminates abnormally with the library's "
+             "transient end, a transient stream end of an already open vBucket WHILE the start-up is still requesting the others (re-open "
+             "succeeds / keeps failing), a store answering for only part of the assignment, corrupt / foreign file dumps, several at once} or "
+             "none (control group). Oracle: fault => the process terminates abnormally with the library's "
              "error before signalling readiness, nothing delivered, no stream ever requested from a seqno beyond the server's; control => ready, "
              "every assigned vBucket requested, events delivered, Close stops it. A dying control case is reported as exit 2 (harness / unrelated "
              "regression), never as a violation. non-trivial = a fault case with >= 2 assigned vBuckets or a fault on a strict subset",
         assumptions=["Layer-A fakes are the trusted base; the Couchbase-backend 'checkpoint cannot be loaded' path is exercised in C20 on the simulated node",
                      "bounded retries on re-open use the library's hard-coded 1 s sleep (one class, few cases)"],
         units=[rapid("TestC15_FailFast", 1, 1, 4, 16)],
-        min_share=dict(any={"control_group_started": ["cases", 0.08]}),
+        min_share=dict(any={"control_group_started": ["cases", 0.08], "end_during_open_reopened": ["cases", 0.03]}),
     ),
     "C19": dict(
         level="fault_enumeration",
         rule="every case runs the real couchbase.NewHealthCheck (interval 10 ms) in a child process with a scripted Ping: ALL 32 success/failure "
              "assignments of a round's five pings are enumerated (exhaustive), plus generated sequences of 1..3 rounds (<= 6 failures in total, "
              "each costs the library's hard-coded 1 s retry wait; children sleep concurrently), Stop() before the first tick / inside the "
-             "retry wait at offsets 0..980 ms / after the rounds, repeated Start and repeated Stop. Oracle: the process dies with the ping error "
+             "retry wait at offsets 0..980 ms / after the rounds, repeated Start and repeated Stop; the rounds starting with three failures also with "
+             "slow pings (350 / 700 ms per ping: a round longer than five retry waits), sequences with 0/120/400 ms pings. Oracle: the process dies with the ping error "
              "iff some round has five consecutive failures; a round issues exactly (first success index + 1) pings, retries >= 1 s apart; Stop() "
              "returns in < 0.9 s even at the start of a retry wait; no ping in a 1.5 s quiet window after Stop() returned; <= 1 ping per tick "
              "after repeated Start. non-trivial = a round with a failure (exhaustive unit), >= 2 rounds or a Stop inside a retry wait (sequences)",
@@ -287,17 +290,27 @@ CHECKS = {
         rule="all ordered pairs over a 896-tuple grid around the gates 5.5.0/6.5.0/7.2.0 (component = gate-1, gate, gate+1, 0, large) "
              "enumerated completely: trichotomy, antisymmetry, agreement with lexicographic tuple order, gate monotonicity and switch "
              "points; rapid triples (near-ties generated by nudging one component) for transitivity; rapid format->parse round trip over "
-             "5 string forms; malformed strings (rapid + native fuzz) must yield tuple or error, never panic. non-trivial pair = tuples "
+             "5 string forms; malformed strings (rapid + native fuzz) must yield tuple or error, never panic; WIRE: the real dcp.NewDcp "
+             "bootstraps against the simulated cluster (HTTP config + SCRAM), which serves a generated version string (gates and their "
+             "neighbours in every component, lexicographic traps, 3..5-field forms, unreadable strings / failing endpoint) and bucket info "
+             "(couchstore / magma / ephemeral); the version the client reports, the DCP_CONTROL keys the node received (enable_expiry_opcode, "
+             "change_streams) and - for a quarter of the cases, after Start()+Close() - the pattern of DCP_CLOSE_STREAM requests (one at a "
+             "time in ascending order vs. overlapping, replies delayed 25 ms, re-examined with 250 ms before reporting) are compared with "
+             "the tuple order. non-trivial pair = tuples "
              "differ but share the major; triple = pairwise different; string = has a non-zero build field; malformed = contains . or -",
         assumptions=["version components are non-negative ints (Atoi range)", "edition strings contain no '.'",
-                     "gate expressions replicated from dcp.go/stream.go source text; the serial-close gate is also observed behaviourally (c18b)"],
+                     "gate expressions are evaluated by the library itself in the wire unit (real newDcp / NewStream); the replicated expressions of the grid unit only add density",
+                     "simnode (HTTP /pools, /pools/default/buckets, streaming bucket config, SCRAM, DCP_CONTROL log) and gocbcore are trusted"],
         units=[
             enum("TestC18_PairGridExhaustive", 8, 16),
             rapid("TestC18_Triples", 40000, 2000000),
             rapid("TestC18_ParseRoundTrip", 20000, 1000000),
             rapid("TestC18_Malformed", 20000, 1000000),
             fuzz("FuzzC18Parse", 60),
+            rapid("TestC18_WireGates", 480, 40000, 8, 16),
         ],
+        min_share=dict(any={"wire_serial_close": ["wire_cases", 0.03], "wire_parallel_close": ["wire_cases", 0.08],
+                            "wire_change_streams_on": ["wire_cases", 0.06], "wire_expiry_off": ["wire_cases", 0.15]}),
     ),
     "C07": dict(
         level="exploration",
